@@ -1,6 +1,7 @@
 package main
 
 import (
+	"encoding/json"
 	"fmt"
 	"sort"
 	"strings"
@@ -79,7 +80,9 @@ func c19ref(l []c19decl) (string, bool) {
 
 func runC19(e *env) {
 	e.m.Rule = "all declaration lists up to length L over the alphabet IDs{a,b,ab} x contents{x,y} x priority{t,f} (closed under permutation), " +
-		"then seeded random lists (length<=60, colliding IDs, shuffles of the same list); non-trivial = at least two declarations sharing an ID or mixing priorities; distinct = distinct (list) inputs"
+		"then seeded random lists (length<=60, colliding IDs, shuffles of the same list); non-trivial = at least two declarations sharing an ID or mixing priorities; distinct = distinct (list) inputs; " +
+		"then the declaration lists the real generators (TypeScript, SQL, gounions, randdata, sqlcrud, each Dart file) hand to WriteDeclarations on corpus modules and the repository's fixtures: " +
+		"the premise 'equal IDs carry equal content' is evaluated on each (Coq: consistentb) and the assembled text is compared with the model"
 	ids := []string{"a", "b", "ab"}
 	contents := []string{"x", "y"}
 	var alphabet []c19decl
@@ -192,6 +195,91 @@ func runC19(e *env) {
 		inputs = append(inputs, map[string]interface{}{"decls": l, "output": out})
 		if len(coqCases) == shard {
 			flush()
+		}
+	}
+	flush()
+	c19Generators(e)
+}
+
+// corpusDecls: inputs aimed at the premise "equal IDs carry equal content" of the generators' own lists.
+func corpusDecls() []*modSpec {
+	mk := func(name, src string, extra ...modFile) *modSpec {
+		return &modSpec{Name: name, ModPath: "example.com/org/models", Target: "models.go",
+			Files: append([]modFile{{"models.go", src}}, extra...)}
+	}
+	return []*modSpec{
+		mk("decls-arrays-sharing-an-alias", "package models\n\ntype Small struct{ P [2]int }\ntype Wide struct{ P [2]int64 }\ntype F struct {\n\tA [3]float32\n\tB [3]float64\n\tC [2]uint8\n\tD [2]int\n}\n"),
+		mk("decls-arrays-sharing-an-alias-reversed", "package models\n\ntype Wide struct{ P [2]int64 }\ntype Small struct{ P [2]int }\n"),
+		mk("decls-shared-anonymous-containers", "package models\n\ntype ID int64\ntype E int\n\nconst (\n\tE0 E = iota\n\tE1\n)\n\ntype A struct {\n\tL []int\n\tM map[string]ID\n\tN [][]E\n}\ntype B struct {\n\tL []int\n\tM map[string]ID\n\tN [][]E\n\tO map[ID][]int\n}\ntype C struct {\n\tA A\n\tB []B\n\tO map[ID][]int\n}\n"),
+		mk("decls-union-members-shared", "package models\n\ntype U1 interface{ is1() }\ntype U2 interface{ is2() }\ntype A struct{ X []int }\ntype B struct{ Y [2]int }\n\nfunc (A) is1() {}\nfunc (A) is2() {}\nfunc (B) is1() {}\nfunc (B) is2() {}\n\ntype S struct {\n\tV1 U1\n\tV2 U2\n\tL []U1\n\tM map[string]U2\n}\n"),
+	}
+}
+
+// c19Generators: the lists the real generators hand to WriteDeclarations satisfy the premise of the
+// order-independence theorem (equal IDs carry equal content), and are assembled as the model says.
+func c19Generators(e *env) {
+	specs := append(corpusDecls(), corpusGraph()...)
+	specs = append(specs, repoFixtures("repo-testsource-defs", "repo-testsource-other", "repo-sql-models")...)
+	obs := observeAll(specs, "decls", 14)
+	var coqCases []string
+	var inputs []interface{}
+	fileNo := 0
+	flush := func() {
+		if len(coqCases) == 0 {
+			return
+		}
+		e.writeCases2(fmt.Sprintf("cases_C19g_%d", fileNo),
+			"From Coq Require Import List String.\nFrom GM Require Import Base.Hex Model.WriteDecls Corr.Check_C19.\nImport ListNotations.\nLocal Open Scope string_scope.\n",
+			"mismatches", "inconsistent_lists", coqCases, inputs)
+		fileNo++
+		coqCases, inputs = nil, nil
+	}
+	for i, o := range obs {
+		if o.LoadErr != "" || o.Outcome != "ok" || o.Gen["decls"].Outcome != "ok" {
+			e.m.count("generator_lists_module_skipped")
+			continue
+		}
+		var lists map[string][]c19decl
+		if err := json.Unmarshal([]byte(o.Gen["decls"].Text), &lists); err != nil {
+			e.m.fail(oracleFailure{What: "cannot read the declaration lists: " + err.Error(), Input: specs[i], NoInput: true})
+			continue
+		}
+		var names []string
+		for k := range lists {
+			names = append(names, k)
+		}
+		sort.Strings(names)
+		for _, g := range names {
+			l := lists[g]
+			if len(l) == 0 {
+				continue
+			}
+			e.m.Evaluations++
+			e.m.OracleRuns++
+			e.m.count("generator_list")
+			byID := map[string]string{}
+			shared := false
+			for _, d := range l {
+				if c, ok := byID[d.ID]; ok {
+					shared = true
+					if c != d.Content {
+						e.m.fail(oracleFailure{What: fmt.Sprintf("generator %s emits the declaration ID %q with two different contents: the assembled text depends on the traversal order", g, d.ID),
+							Input: map[string]interface{}{"module": specs[i], "generator": g, "id": d.ID}, Expect: c, Got: d.Content})
+						break
+					}
+				}
+				byID[d.ID] = d.Content
+			}
+			if shared {
+				e.m.Nontrivial++
+				e.m.count("generator_list_with_repeated_id")
+			}
+			out := c19run(append([]c19decl(nil), l...))
+			coqCases = append(coqCases, fmt.Sprintf("(%s, %s)", c19coq(l), coqStr(out)))
+			inputs = append(inputs, map[string]interface{}{"module": specs[i].Name, "generator": g, "declarations": len(l)})
+			if len(coqCases) == 6 {
+				flush()
+			}
 		}
 	}
 	flush()
